@@ -198,9 +198,23 @@ class Discharger:
         self.stats['solver_s'] += time.time() - t0
         self.stats['queries'] += 1
         res = str(r)
-        self.stats[res] += 1
         m = self.s.model() if res == 'sat' else None
         self.s.pop()
+        if res == 'unknown':
+            # one retry in a fresh solver with six times the budget and another seed (a loaded
+            # machine or an unlucky heuristic must not turn into a verdict either way)
+            s2 = z3.Solver()
+            s2.set('timeout', 60000)
+            s2.set('random_seed', 7)
+            s2.add(self.enc.base_constraints())
+            s2.add(*formulas)
+            t0 = time.time()
+            res = str(s2.check())
+            self.stats['solver_s'] += time.time() - t0
+            self.stats['queries'] += 1
+            self.stats['retried_unknown'] = self.stats.get('retried_unknown', 0) + 1
+            m = s2.model() if res == 'sat' else None
+        self.stats[res] += 1
         return res, m
 
 
